@@ -590,41 +590,42 @@ def config_ops(env: Env) -> Dict[str, List[list]]:
 
 
 class Sessions:
-    """Hands out wrappers for replays.  A MetadorContainer wrapper is shared between replays
-    until a restrict step is applied to the wrapper object itself (restrict mutates in place)."""
+    """Hands out wrappers for replays.  One MetadorContainer wrapper is shared between the
+    replays that never restrict the wrapper object itself (restrict mutates in place); a
+    replay that does gets a private wrapper."""
 
     def __init__(self, env: Env, start: str, flags):
         self.env, self.start, self.flags = env, start, flags
         self.shared: Optional[Session] = None
 
-    def fresh(self) -> Session:
+    def fresh(self, private: bool = False) -> Session:
+        if private:
+            return Session(self.env, self.start, self.flags)
         if self.shared is None:
             self.shared = Session(self.env, self.start, self.flags)
-            return self.shared
         s = self.shared
         t = Session.__new__(Session)
         t.env, t.W, t.U = s.env, s.W, s.U
         if self.start == "container":
-            t.node = s.W            # carries exactly the start flags as long as `restricted` has not fired
+            t.node = s.W            # carries exactly the start flags: nothing ever restricts a shared wrapper
         else:
             t.node = t.W[_abs(STARTS[self.start][0])].restrict(**flag_kwargs(self.flags))
         return t
 
-    def restricted(self, sess: Session, obj):
-        if self.shared is not None and obj is self.shared.W:
-            self.shared = None
 
-
-def replay_chain(env: Env, pool: Sessions, chain: List[list]):
-    """Fresh wrapper objects, same chain (creating steps become lookups of what exists already)."""
-    sess = pool.fresh()
+def replay_chain(env: Env, pool: Sessions, chain: List[list], then_restrict: bool = False, private: bool = False):
+    """Fresh wrapper objects, same chain (creating steps become lookups of what exists already).
+    `then_restrict`: the caller is going to apply restrict to the node returned."""
+    sess = pool.fresh(private)
     node = sess.node
-    for prim in chain:
+    for prim in list(chain) + ([["restrict", None]] if then_restrict else []):
+        if prim[0] == "restrict" and node is sess.W and not private:
+            return replay_chain(env, pool, chain, then_restrict, private=True)
+        if prim[1:] == [None]:
+            break
         st, res = apply_prim(env, node, prim, as_lookup=True)
         if st != "O":
             return sess, None
-        if prim[0] == "restrict":
-            pool.restricted(sess, res)
         node = res
     return sess, node
 
@@ -659,7 +660,7 @@ def w_explore(task) -> Dict[str, Any]:
                     for idx, prim in prims:
                         s2, n2 = sess, node
                         if prim[0] == "restrict":
-                            s2, n2 = replay_chain(env, pool, chain)
+                            s2, n2 = replay_chain(env, pool, chain, then_restrict=True)
                             if n2 is None:
                                 rec["fan"].append([idx, "X", "replay failed"])
                                 continue
@@ -683,9 +684,10 @@ def w_explore(task) -> Dict[str, Any]:
                             rec["fan"].append([idx, st, res])
                             if undo is not None:
                                 _raw_del(env, undo)
+                                state["baseline"] = None
                             continue
-                        if prim[0] == "restrict":
-                            pool.restricted(s2, res)
+                        if undo is not None:
+                            state["baseline"] = None        # the tree has grown
                         segs, kind, acl = node_obs(res)
                         item: List[Any] = [idx, "O", segs, kind, list(acl)]
                         nchain = chain + [prim]
@@ -694,7 +696,7 @@ def w_explore(task) -> Dict[str, Any]:
                         full_suite = (depth == 0 and suite_by_prim) or key not in seen_full
                         seen_full.add(key)
                         if full_suite:
-                            if undo is not None or state["baseline"] is None:
+                            if state["baseline"] is None:
                                 state["baseline"] = env.dump()
                             results, b2, problems = run_suite(env, s2, res, OPS[kind], state["baseline"])
                             state["baseline"] = b2
@@ -752,8 +754,11 @@ def eval_case(case: Dict[str, Any]) -> Dict[str, Any]:
             node = sess.node
             start_path = STARTS[start][0]
             prev_acl = node_obs(node)[2]
+            last_raw = None
             for i, prim in enumerate(chain):
                 st, r = apply_prim(env, node, prim)
+                if st == "U":
+                    last_raw = _raw_result(node, prim)
                 if st != "O":
                     res["trace"].append([prim, st, r])
                     res["stopped"] = i
@@ -766,6 +771,8 @@ def eval_case(case: Dict[str, Any]) -> Dict[str, Any]:
                 res["trace"].append([prim, "O", _abs(segs), kind, list(acl)])
                 res["problems"] += claims_node(flags, start_path, prev_acl, segs, acl, prim)
                 prev_acl = acl
+            if res["problems"] and case.get("demo"):
+                res["demo"] = _demo_write(env, node if node is not None else last_raw)
             if node is not None and op is not None:
                 before = env.dump()
                 out, detail = run_op(env, sess, node, op)
@@ -778,6 +785,26 @@ def eval_case(case: Dict[str, Any]) -> Dict[str, Any]:
 
 
 RAW_CLAIM = "navigation from a restricted node handed out a raw (unwrapped, unrestricted) object"
+
+
+def _raw_result(node, prim):
+    try:
+        return node.parent if prim[0] == "parent" else node.file if prim[0] == "file" else None
+    except Exception:  # noqa: BLE001
+        return None
+
+
+def _demo_write(env: Env, obj) -> str:
+    """What the escape is worth: try to create a group through the object reached."""
+    if obj is None or hasattr(obj, "ndim"):
+        return "no group-like object to write through"
+    before = env.dump()
+    try:
+        obj.create_group("zz_escaped")
+    except Exception as e:  # noqa: BLE001
+        return f"create_group on the object reached: {type(e).__name__}: {e}"[:200]
+    changed = env.dump() != before
+    return f"create_group('zz_escaped') on the object reached SUCCEEDED (raw container changed: {changed})"
 
 
 def claims_node(flags, start_path, prev_acl, segs, acl, prim) -> List[str]:
@@ -869,7 +896,7 @@ def run(ctx: vlib.Ctx):
     # IH5 path resolution is ~40x slower than h5py, the wrapper code under test is the same for both drivers.
     plan = {
         "hdf5": (3, None) if ctx.quick else (4, (3, 0.10)),
-        "ih5": (2, (1, 0.2)) if ctx.quick else (3, (2, 0.2)),
+        "ih5": (2, (1, 0.2)) if ctx.quick else (3, (2, 0.1)),
     }
     nslices = {"hdf5": 4, "ih5": 2}
     tasks = [(d, s, f, plan[d][0], sl, nslices[d], plan[d][1], ctx.seed)
@@ -1079,9 +1106,14 @@ def run(ctx: vlib.Ctx):
             {"kind": "escape", **c}, sig_obj=canon_sig(c))
 
     # ---- cross-check extraction on a sample
-    xc = vlib.coq_crosscheck("c15", nav_cases[:: max(1, len(nav_cases) // 25)][:25] + guard_cases[:6],
-                             ([nav_res[i] for i in range(0, len(nav_cases), max(1, len(nav_cases) // 25))][:25]
-                              + guard_res[:6]), "c15", max_cases=31)
+    step = max(1, len(nav_cases) // 25)
+    xc_cases = nav_cases[::step][:25] + guard_cases[:6]
+    xc_res = nav_res[::step][:25] + guard_res[:6]
+    xc = vlib.coq_crosscheck("c15", xc_cases, xc_res, "c15", max_cases=31)
+    if not xc["ok"] and "inconsistent assumptions" in xc.get("log", ""):
+        # another check rebuilt a library under our feet: rebuild and try once more
+        vlib.ensure_built(need=["Properties/C15.vo"])
+        xc = vlib.coq_crosscheck("c15", xc_cases, xc_res, "c15", max_cases=31)
 
     # ---- coverage
     for i in (5, len(nav_cases) // 2):
@@ -1227,11 +1259,14 @@ def replay(rep) -> int:
         print("replay names a proof obligation or correspondence; re-run the check itself")
         return 1
     case = {k: rep[k] for k in ("driver", "start", "flags", "chain", "op", "claim")}
+    case["demo"] = True
     ev = eval_case(case)
     for t in ev.get("trace", []):
         print("step", t)
     if "op" in ev:
         print("op", ev["op"])
+    if "demo" in ev:
+        print("demo:", ev["demo"])
     probs = ev.get("problems", [])
     bad = (case["claim"] in probs) if case.get("claim") else bool(probs)
     print("\n".join(probs) if probs else "no claim of the property fails")
